@@ -15,8 +15,9 @@
        replaced by its contents ([inline]) perform the same device updates in the same order, at
        the same simulation times, with equal inputs (as dictionaries) -- callbacks included; the
        table-driven devices of the harness are such a family ([C09_inline_transparent_table]).
-   PARTIAL: (3) is about the master in simulation time without interrupts (Model/SimTime.v, which
-   Oracle/SimCheck.v compares with the full master model and the real scheduler per run); nestings
+       [C09_inline_transparent_master] states the same for the real-time master model at speed 1
+       ([simulate_full], the model every run of the real schedulers is compared with).
+   PARTIAL: (3) is about runs without interrupts, at speed 1 where real time is involved; nestings
    deeper than one level, several system simulations, wires straight from an external to an exposed
    port and interrupts are decided per pair of runs of the real schedulers (codes 71/72) and per run
    by the oracles shared with C03/C06/C12 -- [check_flat_pair] also checks that the harness's flat
@@ -24,7 +25,7 @@
    that flattening (code 74).  Property theorems only. *)
 From TV Require Import Base Model.Wiring Model.Ticker Model.Component Model.Sim Model.SimTime Model.Inline
   Oracle.SimCheck Oracle.SimOracle
-  Proofs.SimP Proofs.FlattenP Proofs.EqvP Proofs.InlineP Proofs.InlineLoopP Proofs.InlineScopeP.
+  Proofs.SimP Proofs.FlattenP Proofs.EqvP Proofs.InlineP Proofs.InlineLoopP Proofs.InlineScopeP Proofs.SimTimeP.
 Open Scope Z_scope.
 
 Theorem C09_flat_devices : forall cfg fuel lv, flat_order fuel cfg lv = devices_below cfg fuel lv.
@@ -90,6 +91,38 @@ Proof.
            (table_dev_nd tab) (table_dev_ext tab)).
 Qed.
 
+(* the same for the master model with real time (Model/Sim.v [simulate_full], the model every
+   whole-simulation run of the real schedulers is compared with) at speed 1 without interrupts,
+   for devices that never ask to be called back in the past: that model IS the simulation-time
+   loop ([master_is_sim_loop], every configuration) *)
+Theorem C09_inline_transparent_master : forall cfg c lvc pre inn post (devf : devfun) f n initial t_end,
+  shape_of cfg = Some (c, lvc, pre, inn, post) ->
+  (forall d k t i, NoDup (keys (fst (devf d k t i)))) ->
+  (forall d k t i i', NoDup (keys i) -> NoDup (keys i') -> eqv i i' -> devf d k t i = devf d k t i') ->
+  (forall d k t i w, snd (devf d k t i) = Some w -> t <= w) ->
+  obs_rel (m_obs (simulate_full cfg devf 1 1 (S f) n initial [] [] t_end))
+          (m_obs (simulate_full (inline cfg c lvc) devf 1 1 (S f) n initial [] [] t_end)).
+Proof.
+  intros cfg c lvc pre inn post devf f n initial t_end Hs Hnd Hext Hwell.
+  pose proof (C09_inline_transparent cfg c lvc pre inn post devf f n initial (initial + t_end) Hs Hnd Hext) as H.
+  pose proof (master_is_sim_loop cfg devf Hwell (S f) initial t_end n) as HN.
+  pose proof (master_is_sim_loop (inline cfg c lvc) devf Hwell (S f) initial t_end n) as HF.
+  cbv zeta in HN, HF.
+  destruct (sim_run cfg devf n (S f) initial (initial + t_end)) as [[sN obN] dN].
+  destruct (sim_run (inline cfg c lvc) devf n (S f) initial (initial + t_end)) as [[sF obF] dF].
+  destruct HN as [_ HN]. destruct HF as [_ HF]. rewrite HN, HF. apply H.
+Qed.
+
+Theorem C09_inline_transparent_master_table : forall cfg c lvc pre inn post tab f n initial t_end,
+  shape_of cfg = Some (c, lvc, pre, inn, post) -> periods_ok tab = true ->
+  obs_rel (m_obs (simulate_full cfg (table_dev tab) 1 1 (S f) n initial [] [] t_end))
+          (m_obs (simulate_full (inline cfg c lvc) (table_dev tab) 1 1 (S f) n initial [] [] t_end)).
+Proof.
+  intros cfg c lvc pre inn post tab f n initial t_end Hs Hp.
+  exact (C09_inline_transparent_master cfg c lvc pre inn post (table_dev tab) f n initial t_end Hs
+           (table_dev_nd tab) (table_dev_ext tab) (table_dev_well tab Hp)).
+Qed.
+
 (* the premises hold somewhere and the conclusion is not empty: two devices around a system of two
    devices, callbacks on three of them; 20 master ticks produce more than 30 device updates, and the
    inlined configuration is the flattening *)
@@ -106,5 +139,6 @@ Example C09_inline_example :
   (let '(_, obN, doneN) := sim_run ex_cfg (table_dev ex_tab) 20 8 0 100000 in
    (30 <? Z.of_nat (length obN)) = true /\
    map fst obN = map fst (snd (fst (sim_run (inline ex_cfg 4%positive 2%positive) (table_dev ex_tab) 20 8 0 100000)))) /\
-  conns_set_eqb (flat_conns ex_cfg) (l_conns (level_of (inline ex_cfg 4%positive 2%positive) 1%positive)) = true.
+  conns_set_eqb (flat_conns ex_cfg) (l_conns (level_of (inline ex_cfg 4%positive 2%positive) 1%positive)) = true /\
+  periods_ok ex_tab = true.
 Proof. vm_compute. repeat split; reflexivity. Qed.
